@@ -179,7 +179,7 @@ def validate_M(types, rnd, n):
     seen = set()
     for t in types:
         t2 = rg.strip_refs(t)
-        if compilable(t2):
+        if compilable(t2) and rg.named_in(t2) <= {"Named"}:
             r = rg.rust(t2)
             if r not in seen:
                 seen.add(r)
